@@ -286,6 +286,7 @@ class Conv:
         m = self._machine()
         outs = m.run(body, args, holders=holders)
         self.runs += 1
+        self.__dict__.setdefault("visited", set()).update(m.calls_seen)
         for k2, rec in m.sites.items():
             cur = self.sites.setdefault(k2, {"kind": rec["kind"], "ok": 0, "unknown": 0, "fail": 0})
             for f in ("ok", "unknown", "fail"):
